@@ -24,6 +24,7 @@ Definition cls_of (k : kind) : xcls :=
   match k with
   | KModule => XModule | KFunction => XFunction | KSubroutine => XSubroutine
   | KGeneric | KAbsInt => XInterface | KType => XType | KVar => XVariable | KBound => XBound
+  | KAlias => XVariable
   end.
 
 Definition url_rel (u : option str) : str := match u with Some x => x | None => s "None" end.
@@ -67,9 +68,23 @@ Fixpoint xlate (idf : nat -> str) (cfg : acfg) (b : base) (pk : option kind) (pu
            then (lower (e_name c), xlate idf cfg b (Some k) url kept c) :: go r
            else go r
          end) kids in
+    let alias_of (slot : str) : list (str * xval) :=
+      (fix go (l : list ent) : list (str * xval) :=
+         match l with
+         | [] => []
+         | c :: r =>
+           if alias_sel cfg slot c
+           then (lower (e_name c), xlate idf cfg b (Some k) url kept c) :: go r
+           else go r
+         end) kids in
     let dct (slot : str) : list (str * xval) :=
-      flat_map (fun k' => if opt_eqb str_eqb (pub_class k') (Some slot) then dct_of k' else []) PUB_KINDS in
-    node_x b k name url p dct lst
+      flat_map (fun k' => if opt_eqb str_eqb (pub_class k') (Some slot) then dct_of k' else []) PUB_KINDS
+      ++ alias_of slot in
+    let generic := node_x b k name url p dct lst in
+    match k, kids with
+    | KAlias, t :: _ => xlate idf cfg b (Some KModule) (own_url None None KModule (idf id)) true t
+    | _, _ => generic
+    end
   end.
 
 (* ================================================================= small facts *)
@@ -141,7 +156,25 @@ Definition dict_sel (cfg : acfg) (kept : bool) (k k' : kind) (c : ent) : bool :=
 Definition list_sel (cfg : acfg) (kept : bool) (k : kind) (slot : str) (c : ent) : bool :=
   str_eqb (slot_of (e_kind c)) slot && listed cfg kept k c.
 
+(* an alias node with its target *)
+Definition is_alias_node (k : kind) (kids : list ent) : bool :=
+  match k, kids with KAlias, _ :: _ => true | _, _ => false end.
+
+Lemma export_ent_alias idf cfg pk purl kept id name p t r :
+  export_ent idf cfg pk purl kept (Ent id KAlias name p (t :: r))
+  = export_ent idf cfg (Some KModule) (own_url None None KModule (idf id)) true t.
+Proof. reflexivity. Qed.
+Lemma xlate_alias idf cfg b pk purl kept id name p t r :
+  xlate idf cfg b pk purl kept (Ent id KAlias name p (t :: r))
+  = xlate idf cfg b (Some KModule) (own_url None None KModule (idf id)) true t.
+Proof. reflexivity. Qed.
+
+Lemma is_alias_node_cases k kids :
+  is_alias_node k kids = true -> exists t r, k = KAlias /\ kids = t :: r.
+Proof. destruct k, kids; simpl; intros H; try discriminate. eauto. Qed.
+
 Lemma export_ent_eq idf cfg pk purl kept id k name p kids :
+  is_alias_node k kids = false ->
   export_ent idf cfg pk purl kept (Ent id k name p kids) =
   let url := own_url pk purl k (idf id) in
   JDict (node_entries k name url p
@@ -149,11 +182,14 @@ Lemma export_ent_eq idf cfg pk purl kept id k name p kids :
                                      then sel_map (dict_sel cfg kept k k')
                                             (fun c => (lower (e_name c),
                                                        export_ent idf cfg (Some k) url kept c)) kids
-                                     else []) PUB_KINDS)
+                                     else []) PUB_KINDS
+                 ++ sel_map (alias_sel cfg slot)
+                      (fun c => (lower (e_name c), export_ent idf cfg (Some k) url kept c)) kids)
     (fun slot => sel_map (list_sel cfg kept k slot) (export_ent idf cfg (Some k) url kept) kids)).
-Proof. reflexivity. Qed.
+Proof. destruct k, kids; simpl; intros H; try discriminate; reflexivity. Qed.
 
 Lemma xlate_eq idf cfg b pk purl kept id k name p kids :
+  is_alias_node k kids = false ->
   xlate idf cfg b pk purl kept (Ent id k name p kids) =
   let url := own_url pk purl k (idf id) in
   node_x b k name url p
@@ -161,9 +197,11 @@ Lemma xlate_eq idf cfg b pk purl kept id k name p kids :
                                      then sel_map (dict_sel cfg kept k k')
                                             (fun c => (lower (e_name c),
                                                        xlate idf cfg b (Some k) url kept c)) kids
-                                     else []) PUB_KINDS)
+                                     else []) PUB_KINDS
+                 ++ sel_map (alias_sel cfg slot)
+                      (fun c => (lower (e_name c), xlate idf cfg b (Some k) url kept c)) kids)
     (fun slot => sel_map (list_sel cfg kept k slot) (xlate idf cfg b (Some k) url kept) kids).
-Proof. reflexivity. Qed.
+Proof. destruct k, kids; simpl; intros H; try discriminate; reflexivity. Qed.
 
 (* ================================================================= sizes *)
 
@@ -240,8 +278,14 @@ Proof.
   apply import_pairs_app; [apply H; now left|]. apply IH. intros k' Hk. apply H. now right.
 Qed.
 
-Lemma truthy_export idf cfg pk purl kept e : truthy (export_ent idf cfg pk purl kept e) = true.
-Proof. destruct e. reflexivity. Qed.
+Lemma truthy_export idf cfg e : forall pk purl kept, truthy (export_ent idf cfg pk purl kept e) = true.
+Proof.
+  induction e as [id k name p kids IH] using ent_rect'. intros pk purl kept.
+  destruct (is_alias_node k kids) eqn:A.
+  - destruct (is_alias_node_cases _ _ A) as (t & r & -> & ->). rewrite export_ent_alias.
+    inversion IH; subst. auto.
+  - rewrite export_ent_eq by assumption. reflexivity.
+Qed.
 
 (* ================================================================= import (export e) *)
 
@@ -252,7 +296,10 @@ Theorem import_export_ent idf cfg b e :
 Proof.
   induction e as [id k name p kids IH] using ent_rect'.
   intros n pk purl kept Hn.
-  rewrite export_ent_eq in *. rewrite xlate_eq. cbv zeta in *.
+  destruct (is_alias_node k kids) eqn:AL.
+  { destruct (is_alias_node_cases _ _ AL) as (t & r & -> & ->).
+    rewrite export_ent_alias in *. rewrite xlate_alias. inversion IH; subst. auto. }
+  rewrite export_ent_eq in * by assumption. rewrite xlate_eq by assumption. cbv zeta in *.
   set (url := own_url pk purl k (idf id)) in *.
   match goal with
   | |- context [node_entries k name url p ?dv ?lv] => set (DV := dv) in *; set (LV := lv) in *
@@ -264,18 +311,28 @@ Proof.
   - intros sl Hsl.
     pose proof (jsize_in_dict _ _ _ (dict_slot_entry k name url p DV LV sl Hsl)) as L2.
     unfold DV at 1. unfold DV at 1 in L2.
-    apply import_pairs_flat. intros k' Hk'.
-    destruct (opt_eqb str_eqb (pub_class k') (Some sl)) eqn:Ek; [|reflexivity].
-    apply import_pairs_sel. intros c Hc Sc. split; [apply truthy_export|].
-    apply IH; [exact Hc|].
-    match type of L2 with
-    | jsize (JDict ?d) < _ =>
-      assert (L : jsize (export_ent idf cfg (Some k) url kept c) < jsize (JDict d))
-    end.
-    { apply (jsize_in_dict (lower (e_name c))). apply in_flat_map. exists k'. split.
-      - exact Hk'.
-      - rewrite Ek. apply (sel_map_in (dict_sel cfg kept k k') (fun c0 => (lower (e_name c0), _)) kids c Hc Sc). }
-    lia.
+    apply import_pairs_app.
+    + apply import_pairs_flat. intros k' Hk'.
+      destruct (opt_eqb str_eqb (pub_class k') (Some sl)) eqn:Ek; [|reflexivity].
+      apply import_pairs_sel. intros c Hc Sc. split; [apply truthy_export|].
+      apply IH; [exact Hc|].
+      match type of L2 with
+      | jsize (JDict ?d) < _ =>
+        assert (L : jsize (export_ent idf cfg (Some k) url kept c) < jsize (JDict d))
+      end.
+      { apply (jsize_in_dict (lower (e_name c))). apply in_or_app. left. apply in_flat_map. exists k'. split.
+        - exact Hk'.
+        - rewrite Ek. apply (sel_map_in (dict_sel cfg kept k k') (fun c0 => (lower (e_name c0), _)) kids c Hc Sc). }
+      lia.
+    + apply import_pairs_sel. intros c Hc Sc. split; [apply truthy_export|].
+      apply IH; [exact Hc|].
+      match type of L2 with
+      | jsize (JDict ?d) < _ =>
+        assert (L : jsize (export_ent idf cfg (Some k) url kept c) < jsize (JDict d))
+      end.
+      { apply (jsize_in_dict (lower (e_name c))). apply in_or_app. right.
+        apply (sel_map_in (alias_sel cfg sl) (fun c0 => (lower (e_name c0), _)) kids c Hc Sc). }
+      lia.
   - intros sl Hsl.
     pose proof (jsize_in_dict _ _ _ (list_slot_entry k name url p DV LV sl Hsl)) as L2.
     unfold LV at 1. unfold LV at 1 in L2.
@@ -363,21 +420,25 @@ Qed.
 Lemma sel_map_filter {X} sel (f : ent -> X) l : sel_map sel f l = map f (filter sel l).
 Proof. induction l as [|c r IH]; simpl; [reflexivity|]. destruct (sel c); simpl; now rewrite IH. Qed.
 
-(* the entities of module m that a USE can import from class dict w: accessible, and documented by A *)
+(* what module m makes accessible in table w, in the table's order: its own entities that are accessible
+   and documented, then (alias nodes) the names for entities of other modules *)
 Definition class_members (cfg : acfg) (m : ent) (w : str) : list ent :=
   flat_map (fun k' => if opt_eqb str_eqb (pub_class k') (Some w)
                       then filter (dict_sel cfg true (e_kind m) k') (e_kids m) else [])
-           PUB_KINDS.
+           PUB_KINDS
+  ++ filter (alias_sel cfg w) (e_kids m).
 
-(* Fortran: the accessible names of one class in a module are distinct (case-insensitively) *)
+(* Fortran: the names accessible in one class of a module are distinct (case-insensitively) *)
 Definition names_distinct (cfg : acfg) (m : ent) : Prop :=
   forall w, In w PUB_DICTS -> NoDup (map (fun c => lower (e_name c)) (class_members cfg m w)).
 
 Lemma dict_as_map {X} cfg kept k (f : ent -> X) kids w :
   flat_map (fun k' => if opt_eqb str_eqb (pub_class k') (Some w) then sel_map (dict_sel cfg kept k k') f kids else []) PUB_KINDS
+  ++ sel_map (alias_sel cfg w) f kids
   = map f (flat_map (fun k' => if opt_eqb str_eqb (pub_class k') (Some w) then filter (dict_sel cfg kept k k') kids else [])
-                    PUB_KINDS).
+                    PUB_KINDS ++ filter (alias_sel cfg w) kids).
 Proof.
+  rewrite map_app, <- sel_map_filter. f_equal.
   induction PUB_KINDS as [|k' ks IH]; simpl; [reflexivity|].
   rewrite map_app, IH. f_equal.
   destruct (opt_eqb str_eqb (pub_class k') (Some w)); [apply sel_map_filter|reflexivity].
@@ -397,18 +458,82 @@ Lemma member_in cfg m e w :
   In e (e_kids m) -> accessible e = true -> shown (c_display cfg) e = true ->
   pub_class (e_kind e) = Some w -> In e (class_members cfg m w).
 Proof.
-  intros Km Hin Ha Hs Hp. unfold class_members. apply in_flat_map. exists (e_kind e). split.
+  intros Km Hin Ha Hs Hp. unfold class_members. apply in_or_app. left.
+  apply in_flat_map. exists (e_kind e). split.
   - now apply (pub_class_in _ w).
   - rewrite Hp, opt_eqb_refl. apply filter_In. split; [assumption|].
     unfold dict_sel, listed. rewrite Km. simpl. now rewrite kind_eqb_refl, Ha, Hs.
 Qed.
 
+Lemma alias_member_in cfg m mid local pa t r w :
+  In (Ent mid KAlias local pa (t :: r)) (e_kids m) ->
+  accessible (Ent mid KAlias local pa (t :: r)) = true -> shown (c_display cfg) t = true ->
+  pub_class (e_kind t) = Some w -> In (Ent mid KAlias local pa (t :: r)) (class_members cfg m w).
+Proof.
+  intros Hin Ha Hs Hp. unfold class_members. apply in_or_app. right. apply filter_In.
+  split; [assumption|]. unfold alias_sel. cbn [alias_target]. now rewrite Hp, opt_eqb_refl, Ha, Hs.
+Qed.
+
+Lemma not_alias_of_class e w : pub_class (e_kind e) = Some w -> alias_target e = None.
+Proof. destruct e as [id k name p kids]. destruct k; simpl; intros H; try discriminate; reflexivity. Qed.
+
 Lemma x_url_xlate idf cfg b pk purl kept e :
+  alias_target e = None ->
   x_url (xlate idf cfg b pk purl kept e)
   = JStr (rebase b (url_rel (own_url pk purl (e_kind e) (idf (e_id e))))).
-Proof. destruct e. reflexivity. Qed.
-Lemma x_name_xlate idf cfg b pk purl kept e : x_name (xlate idf cfg b pk purl kept e) = JStr (e_name e).
-Proof. destruct e. reflexivity. Qed.
+Proof. destruct e as [id k name p kids]. destruct k, kids; simpl; intros H; try discriminate; reflexivity. Qed.
+Lemma x_name_xlate idf cfg b pk purl kept e :
+  alias_target e = None -> x_name (xlate idf cfg b pk purl kept e) = JStr (e_name e).
+Proof. destruct e as [id k name p kids]. destruct k, kids; simpl; intros H; try discriminate; reflexivity. Qed.
+
+Lemma module_used_all b name url p dx lx n :
+  used_all (x_attrs (node_x b KModule name url p dx lx)) n PUB_DICTS = Ok tt.
+Proof. reflexivity. Qed.
+
+Lemma module_used_lookup b name url p dx lx w n :
+  In w PUB_DICTS ->
+  used_lookup (node_x b KModule name url p dx lx) w n = Ok (assoc_get (lower n) (dx w)).
+Proof.
+  intros Hw. unfold used_lookup. rewrite module_used_all. cbn [bind].
+  rewrite (module_pub_attr _ _ _ _ _ _ w Hw). reflexivity.
+Qed.
+
+Lemma assoc_get_map_in {X} (key : X -> str) (g : X -> xval) l c :
+  NoDup (map key l) -> In c l -> assoc_get (key c) (map (fun x => (key x, g x)) l) = Some (g c).
+Proof.
+  induction l as [|x l IH]; intros ND Hin; [destruct Hin|].
+  simpl in ND. inversion ND as [|? ? Hn ND']; subst. simpl.
+  destruct Hin as [->|Hin]; [now rewrite str_eqb_refl|].
+  destruct (str_eqb (key c) (key x)) eqn:E.
+  - exfalso. apply Hn. apply str_eqb_eq in E. rewrite <- E. now apply in_map.
+  - now apply IH.
+Qed.
+
+Lemma assoc_get_map_none {X} (key : X -> str) (g : X -> xval) l k :
+  (forall x, In x l -> key x <> k) -> assoc_get k (map (fun x => (key x, g x)) l) = None.
+Proof.
+  induction l as [|x l IH]; intros H; simpl; [reflexivity|].
+  destruct (str_eqb k (key x)) eqn:E.
+  - apply str_eqb_eq in E. exfalso. apply (H x); [now left|auto].
+  - apply IH. intros y Hy. apply H. now right.
+Qed.
+
+(* whatever module m makes accessible under the (lower-cased) name of member c of table w is what B's
+   USE gets for that name: the object of c (for an alias node: of the entity behind it) *)
+Theorem used_lookup_member idf cfg b id name p kids c w :
+  let m := Ent id KModule name p kids in
+  names_distinct cfg m -> In w PUB_DICTS -> In c (class_members cfg m w) ->
+  used_lookup (xlate idf cfg b None None true m) w (e_name c)
+  = Ok (Some (xlate idf cfg b (Some KModule) (own_url None None KModule (idf id)) true c)).
+Proof.
+  intros m ND Hw Hc. unfold m. rewrite xlate_eq by reflexivity. cbv zeta.
+  rewrite (module_used_lookup _ _ _ _ _ _ w _ Hw). f_equal.
+  rewrite dict_as_map.
+  apply (assoc_get_map_in (fun c => lower (e_name c))
+           (fun c => xlate idf cfg b (Some KModule) (own_url None None KModule (idf id)) true c)).
+  - apply (ND w Hw).
+  - exact Hc.
+Qed.
 
 Theorem used_lookup_roundtrip idf cfg b id name p kids e w :
   let m := Ent id KModule name p kids in
@@ -417,38 +542,36 @@ Theorem used_lookup_roundtrip idf cfg b id name p kids e w :
   used_lookup (xlate idf cfg b None None true m) w (e_name e)
   = Ok (Some (xlate idf cfg b (Some KModule) (own_url None None KModule (idf id)) true e)).
 Proof.
-  intros m ND Hin Ha Hs Hp.
-  destruct (pub_class_in _ _ Hp) as [Hw _].
-  unfold used_lookup, m. rewrite xlate_eq. cbv zeta.
-  rewrite module_pub_all, (module_pub_attr _ _ _ _ _ _ w Hw).
-  f_equal. rewrite dict_as_map.
-  apply (last_match_unique (e_name e) _ (lower (e_name e))).
-  - rewrite map_map. simpl.
-    rewrite (map_ext _ (fun c => lower (e_name c))) by (intros c; apply lower_idem).
-    apply (ND w Hw).
-  - apply (in_map (fun c => (lower (e_name c), xlate idf cfg b (Some KModule)
-        (own_url None None KModule (idf id)) true c)) _ e).
-    apply (member_in cfg m); auto.
-  - apply lower_idem.
+  intros m ND Hin Ha Hs Hp. destruct (pub_class_in _ _ Hp) as [Hw _].
+  apply used_lookup_member; auto. apply (member_in cfg m); auto.
 Qed.
 
-(* an accessible entity that A does not display is not in the description: B gets no object (and
-   so no link) for it *)
+(* a re-exported name: B's USE of the local name gets the entity behind it, as its defining module
+   (id mid) exports it *)
+Theorem used_lookup_alias idf cfg b id name p kids mid local pa t r w :
+  let m := Ent id KModule name p kids in
+  let a := Ent mid KAlias local pa (t :: r) in
+  names_distinct cfg m ->
+  In a kids -> accessible a = true -> shown (c_display cfg) t = true -> pub_class (e_kind t) = Some w ->
+  used_lookup (xlate idf cfg b None None true m) w local
+  = Ok (Some (xlate idf cfg b (Some KModule) (own_url None None KModule (idf mid)) true t)).
+Proof.
+  intros m a ND Hin Ha Hs Hp. destruct (pub_class_in _ _ Hp) as [Hw _].
+  exact (used_lookup_member idf cfg b id name p kids a w ND Hw
+           (alias_member_in cfg m mid local pa t r w Hin Ha Hs Hp)).
+Qed.
+
+(* a name that no documented accessible entity (own or re-exported) of the table carries: B gets no
+   object (and so no link) for it *)
 Theorem used_lookup_undisplayed idf cfg b id name p kids w n :
   let m := Ent id KModule name p kids in
-  (forall e, In e kids -> lower (e_name e) = lower n -> shown (c_display cfg) e = false) ->
+  (forall c, In c (class_members cfg m w) -> lower (e_name c) <> lower n) ->
   In w PUB_DICTS ->
   used_lookup (xlate idf cfg b None None true m) w n = Ok None.
 Proof.
-  intros m H Hw. unfold used_lookup, m. rewrite xlate_eq. cbv zeta.
-  rewrite module_pub_all, (module_pub_attr _ _ _ _ _ _ w Hw). f_equal.
-  rewrite dict_as_map. apply fold_last_none.
-  intros [k v] Hin. simpl. apply in_map_iff in Hin as (c & [= <- <-] & Hc).
-  apply in_flat_map in Hc as (k' & _ & Hc).
-  destruct (opt_eqb str_eqb (pub_class k') (Some w)); [|destruct Hc].
-  apply filter_In in Hc as [Hc S]. unfold dict_sel, listed in S. simpl in S.
-  apply andb_true_iff in S as [_ S].
-  apply str_eqb_neq. intros E. rewrite lower_idem in E. rewrite (H c Hc E) in S. discriminate.
+  intros m H Hw. unfold m. rewrite xlate_eq by reflexivity. cbv zeta.
+  rewrite (module_used_lookup _ _ _ _ _ _ w _ Hw). f_equal.
+  rewrite dict_as_map. now apply assoc_get_map_none.
 Qed.
 
 (* ================================================================= re-basing A's relative URLs *)
@@ -719,23 +842,35 @@ Definition not_module_obj (o : xval) : Prop := x_cls o <> Some XModule.
 Lemma objs_of_xlate_head idf cfg b pk purl kept e :
   exists rest, objs_of (xlate idf cfg b pk purl kept e) = xlate idf cfg b pk purl kept e :: rest
                /\ (no_module_below e = true -> Forall not_module_obj rest)
-               /\ x_cls (xlate idf cfg b pk purl kept e) = Some (cls_of (e_kind e)).
+               /\ (e_kind e = KModule -> x_cls (xlate idf cfg b pk purl kept e) = Some XModule)
+               /\ (no_module_below e = true -> e_kind e <> KModule ->
+                   not_module_obj (xlate idf cfg b pk purl kept e)).
 Proof.
   revert pk purl kept. induction e as [id k name p kids IH] using ent_rect'. intros pk purl kept.
-  rewrite xlate_eq. cbv zeta. set (url := own_url pk purl k (idf id)).
+  destruct (is_alias_node k kids) eqn:AL.
+  { destruct (is_alias_node_cases _ _ AL) as (t & r & -> & ->). rewrite xlate_alias.
+    inversion IH as [|? ? IHt _]; subst.
+    destruct (IHt (Some KModule) (own_url None None KModule (idf id)) true) as (rest & E & F & _ & C4).
+    exists rest. split; [exact E|]. split; [|split].
+    - intros NM. destruct (no_module_below_kids _ _ _ _ _ t NM (or_introl eq_refl)) as [_ NMt]. auto.
+    - simpl. discriminate.
+    - intros NM _. destruct (no_module_below_kids _ _ _ _ _ t NM (or_introl eq_refl)) as [Kt NMt]. auto. }
+  rewrite xlate_eq by assumption. cbv zeta. set (url := own_url pk purl k (idf id)).
   match goal with
   | |- context [node_x b k name url p ?dx ?lx] => set (DX := dx) in *; set (LX := lx) in *
   end.
-  unfold node_x. rewrite objs_of_XO. eexists. split; [reflexivity|]. split; [|reflexivity].
+  unfold node_x. rewrite objs_of_XO. eexists. split; [reflexivity|]. split; [|split].
+  2: { simpl. intros ->. reflexivity. }
+  2: { intros _ Kk. unfold not_module_obj. simpl. intros [= X]. now apply cls_of_module in X. }
   intros NM. apply Forall_forall. intros o Ho.
   apply in_objs_pairs in Ho as (key & a & Hka & Ho).
   apply in_canon_attrs in Hka as [Hka|Hka]; [|exfalso; eapply defaults_no_objs; eauto].
   rewrite Forall_forall in IH.
   assert (KID : forall c kept', In c kids -> In o (objs_of (xlate idf cfg b (Some k) url kept' c)) -> not_module_obj o).
   { intros c kept' Hc Hoc. destruct (no_module_below_kids _ _ _ _ _ c NM Hc) as [Kc NMc].
-    destruct (IH c Hc (Some k) url kept') as (rest & E & F & C). rewrite E in Hoc.
+    destruct (IH c Hc (Some k) url kept') as (rest & E & F & _ & C4). rewrite E in Hoc.
     destruct Hoc as [<-|Hoc].
-    - unfold not_module_obj. rewrite C. intros [= X]. now apply cls_of_module in X.
+    - now apply C4.
     - specialize (F NMc). rewrite Forall_forall in F. now apply F. }
   apply in_app_or in Hka as [Hka|Hka].
   { destruct (proctype_str k); [|destruct Hka]. destruct (xcls_eqb (cls_of k) XInterface); [|destruct Hka].
@@ -743,9 +878,11 @@ Proof.
   apply in_app_or in Hka as [Hka|Hka].
   { apply in_map_iff in Hka as (sl & [= <- <-] & _). rewrite objs_of_XD in Ho.
     apply in_objs_pairs in Ho as (k2 & a2 & Hin & Ho). unfold DX in Hin.
-    apply in_flat_map in Hin as (k' & _ & Hin).
-    destruct (opt_eqb str_eqb (pub_class k') (Some sl)); [|destruct Hin].
-    apply sel_map_in_inv in Hin as (c & Hc & _ & [= -> ->]). eapply KID; eauto. }
+    apply in_app_or in Hin as [Hin|Hin].
+    - apply in_flat_map in Hin as (k' & _ & Hin).
+      destruct (opt_eqb str_eqb (pub_class k') (Some sl)); [|destruct Hin].
+      apply sel_map_in_inv in Hin as (c & Hc & _ & [= -> ->]). eapply KID; eauto.
+    - apply sel_map_in_inv in Hin as (c & Hc & _ & [= -> ->]). eapply KID; eauto. }
   apply in_app_or in Hka as [Hka|Hka].
   { apply in_map_iff in Hka as (sl & [= <- <-] & _). rewrite objs_of_XL in Ho.
     apply in_objs_list in Ho as (a2 & Hin & Ho). unfold LX in Hin.
@@ -772,20 +909,24 @@ Proof.
   unfold ext_list, xmods. fold is_module_obj.
   induction (a_modules A) as [|m r IH]; intros W; simpl; [reflexivity|].
   inversion W as [|? ? [Km NM] W']; subst.
-  destruct (objs_of_xlate_head (ident_of A) (a_cfg A) b None None true m) as (rest & E & F & C).
+  destruct (objs_of_xlate_head (ident_of A) (a_cfg A) b None None true m) as (rest & E & F & C & _).
   rewrite E. simpl. rewrite filter_app.
   change (filter _ (flat_map objs_of ?l)) with (filter is_module_obj (flat_map objs_of l)).
   rewrite (IH W'), (not_module_filter _ (F NM)).
-  unfold is_module_obj at 1. rewrite C, Km. reflexivity.
+  unfold is_module_obj at 1. rewrite (C Km). reflexivity.
 Qed.
 
 (* ================================================================= USE resolution *)
 
 Lemma xlate_shape idf cfg b pk purl kept e :
+  alias_target e = None ->
   exists attrs, xlate idf cfg b pk purl kept e
                 = XO (cls_of (e_kind e)) (JStr (e_name e))
                      (JStr (rebase b (url_rel (own_url pk purl (e_kind e) (idf (e_id e)))))) attrs.
-Proof. destruct e. eexists. reflexivity. Qed.
+Proof.
+  destruct e as [id k name p kids]. destruct k, kids; simpl; intros H; try discriminate;
+    eexists; reflexivity.
+Qed.
 
 Lemma find_first_local_hit n c locals rest : forall i,
   lower_in n locals = true ->
@@ -810,14 +951,18 @@ Proof.
   apply orb_false_iff in H as [H1 H2]. rewrite H1. now apply IH.
 Qed.
 
+Lemma module_not_alias m : e_kind m = KModule -> alias_target m = None.
+Proof. destruct m as [id k name p kids]. simpl. intros ->. reflexivity. Qed.
+
 Lemma find_first_xlate idf cfg b mods m :
+  Forall (fun x => e_kind x = KModule) mods ->
   NoDup (map (fun e => lower (e_name e)) mods) -> In m mods ->
   find_first (e_name m) (map IExt (map (xlate idf cfg b None None true) mods))
   = Ok (Some (HExt (xlate idf cfg b None None true m))).
 Proof.
-  induction mods as [|x r IH]; intros ND Hin; [destruct Hin|].
-  inversion ND as [|? ? Hn ND']; subst. simpl.
-  destruct (xlate_shape idf cfg b None None true x) as (attrs & E).
+  induction mods as [|x r IH]; intros KM ND Hin; [destruct Hin|].
+  inversion ND as [|? ? Hn ND']; subst. inversion KM as [|? ? Kx KM']; subst. simpl.
+  destruct (xlate_shape idf cfg b None None true x (module_not_alias x Kx)) as (attrs & E).
   destruct Hin as [->|Hin].
   - rewrite E. cbn [find_first]. rewrite str_eqb_refl. reflexivity.
   - rewrite E. cbn [find_first].
@@ -843,7 +988,8 @@ Proof.
   intros W Hin Hl. unfold find_used_module.
   rewrite find_first_local_miss by assumption.
   rewrite ext_modules_are_modules by apply W.
-  apply find_first_xlate; [apply W|assumption].
+  apply find_first_xlate; [|apply W|assumption].
+  eapply Forall_impl; [|apply (wf_kinds A W)]. intros x [Kx _]. exact Kx.
 Qed.
 
 (* B's own module wins *)
@@ -954,26 +1100,37 @@ Definition reqs_kids (k : kind) : list ent -> list req :=
     match l with [] => [] | c :: r => tree_reqs (Some k) c ++ go r end.
 
 Lemma tree_reqs_eq pk id k name p kids :
+  is_alias_node k kids = false ->
   tree_reqs pk (Ent id k name p kids) = req_of pk (Ent id k name p kids) :: reqs_kids k kids.
-Proof. reflexivity. Qed.
+Proof. destruct k, kids; simpl; intros H; try discriminate; reflexivity. Qed.
 
-Lemma tree_reqs_head pk e : exists rest, tree_reqs pk e = req_of pk e :: rest.
-Proof. destruct e. eexists. apply tree_reqs_eq. Qed.
+Lemma alias_target_node id k name p kids :
+  alias_target (Ent id k name p kids) = None -> is_alias_node k kids = false.
+Proof. destruct k, kids; simpl; intros H; try discriminate; reflexivity. Qed.
 
-Lemma kid_req_in pk m e : In e (e_kids m) -> In (req_of (Some (e_kind m)) e) (tree_reqs pk m).
+Lemma tree_reqs_head pk e : alias_target e = None -> exists rest, tree_reqs pk e = req_of pk e :: rest.
 Proof.
-  destruct m as [id k name p kids]. simpl e_kids. simpl e_kind. intros H.
-  rewrite tree_reqs_eq. right.
+  destruct e as [id k name p kids]. intros H. eexists. apply tree_reqs_eq.
+  now apply (alias_target_node id k name p kids).
+Qed.
+
+Lemma kid_req_in pk m e :
+  alias_target m = None -> alias_target e = None ->
+  In e (e_kids m) -> In (req_of (Some (e_kind m)) e) (tree_reqs pk m).
+Proof.
+  destruct m as [id k name p kids]. simpl e_kids. simpl e_kind. intros Am Ae H.
+  rewrite tree_reqs_eq by now apply (alias_target_node id k name p kids). right. clear Am.
   induction kids as [|c r IH]; [destruct H|]. simpl.
   apply in_or_app. destruct H as [->|H].
-  - left. destruct (tree_reqs_head (Some k) e) as (rest & ->). now left.
+  - left. destruct (tree_reqs_head (Some k) e Ae) as (rest & ->). now left.
   - right. now apply IH.
 Qed.
 
 Lemma kid_req_all A m e :
+  alias_target m = None -> alias_target e = None ->
   In m (a_modules A) -> In e (e_kids m) -> In (req_of (Some (e_kind m)) e) (all_reqs A).
 Proof.
-  intros Hm He. unfold all_reqs. apply in_or_app. right. apply in_flat_map.
+  intros Am Ae Hm He. unfold all_reqs. apply in_or_app. right. apply in_flat_map.
   exists m. split; [assumption|]. now apply kid_req_in.
 Qed.
 
@@ -1031,7 +1188,10 @@ Proof.
   pose proof (page_dir_noslash _ (dir_of_page _ _ _ D2)) as S2.
   change (s "/" ++ ?x) with ("/"%char :: x) in E.
   apply split_at_first_unique in E as [Ed Ei]; auto. apply app_inv_tail in Ei.
-  pose proof (kid_req_all A m1 e1 M1 E1) as R1. pose proof (kid_req_all A m2 e2 M2 E2) as R2.
+  assert (NA : forall e d, dir_of (Some KModule) (e_kind e) = Some d -> alias_target e = None).
+  { intros [i k n p l] d. destruct k; simpl; intros H; try discriminate; reflexivity. }
+  pose proof (kid_req_all A m1 e1 (module_not_alias m1 K1) (NA e1 d1 D1) M1 E1) as R1.
+  pose proof (kid_req_all A m2 e2 (module_not_alias m2 K2) (NA e2 d2 D2) M2 E2) as R2.
   rewrite K1 in R1. rewrite K2 in R2.
   destruct (ident_of_request A _ C R1) as (i & N1 & O1).
   destruct (ident_of_request A _ C R2) as (j & N2 & O2).
@@ -1059,8 +1219,21 @@ Lemma all2_map {X Y} (f : X -> Y -> bool) (g : X -> Y) l :
   all2 f l (map g l) = forallb (fun x => f x (g x)) l.
 Proof. induction l as [|x l IH]; simpl; [reflexivity|]. now rewrite IH. Qed.
 
-Lemma jname_export idf cfg pk purl kept e : jname (export_ent idf cfg pk purl kept e) = e_name e.
-Proof. destruct e. reflexivity. Qed.
+Lemma jname_export idf cfg pk purl kept e :
+  alias_target e = None -> jname (export_ent idf cfg pk purl kept e) = e_name e.
+Proof. destruct e as [id k name p kids]. destruct k, kids; simpl; intros H; try discriminate; reflexivity. Qed.
+
+Lemma slot_not_alias e l : In l LIST_CLASSES -> str_eqb (slot_of (e_kind e)) l = true -> alias_target e = None.
+Proof.
+  destruct e as [id k name p kids]. intros Hl E. destruct k; try reflexivity.
+  simpl in E. unfold LIST_CLASSES in Hl. simpl in Hl.
+  repeat (destruct Hl as [<-|Hl]; [discriminate E|]). destruct Hl.
+Qed.
+
+(* the entity behind a re-exported name is accessible in its own module (Fortran: otherwise it could
+   not be use-associated) *)
+Definition aliases_legal (m : ent) : Prop :=
+  forall c t, In c (e_kids m) -> alias_target c = Some t -> accessible t = true.
 
 Lemma shown_default d c : display_default d = true -> shown d c = accessible c.
 Proof.
@@ -1070,29 +1243,39 @@ Proof.
 Qed.
 
 Lemma class_members_filter cfg m w c :
-  e_kind m = KModule -> display_default (c_display cfg) = true ->
+  e_kind m = KModule -> display_default (c_display cfg) = true -> aliases_legal m ->
   In c (class_members cfg m w)
-  <-> In c (filter (fun e => accessible e && opt_eqb str_eqb (pub_class (e_kind e)) (Some w)) (e_kids m)).
+  <-> In c (filter (fun e => accessible e && opt_eqb str_eqb (class_of e) (Some w)) (e_kids m)).
 Proof.
-  intros Km DD. unfold class_members. rewrite in_flat_map, filter_In. split.
-  - intros (k' & Hk & H). destruct (opt_eqb str_eqb (pub_class k') (Some w)) eqn:E; [|destruct H].
-    apply filter_In in H as [Hc S]. unfold dict_sel in S. apply andb_true_iff in S as [S _].
-    apply andb_true_iff in S as [S1 S2].
-    split; [assumption|]. rewrite S2. simpl.
-    assert (e_kind c = k') by (destruct (e_kind c), k'; simpl in S1; congruence). now subst k'.
-  - intros [Hc S]. apply andb_true_iff in S as [S1 S2]. exists (e_kind c). split.
-    + destruct (pub_class (e_kind c)) as [w'|] eqn:P; [|discriminate].
-      now apply (pub_class_in _ w').
-    + rewrite S2. apply filter_In. split; [assumption|]. unfold dict_sel, listed. rewrite Km. simpl.
-      now rewrite kind_eqb_refl, S1, (shown_default _ c DD), S1.
+  intros Km DD AL. unfold class_members. rewrite in_app_iff, in_flat_map, !filter_In. split.
+  - intros [(k' & Hk & H)|[Hc S]].
+    + destruct (opt_eqb str_eqb (pub_class k') (Some w)) eqn:E; [|destruct H].
+      apply filter_In in H as [Hc S]. unfold dict_sel in S. apply andb_true_iff in S as [S _].
+      apply andb_true_iff in S as [S1 S2].
+      split; [assumption|]. rewrite S2. simpl.
+      assert (e_kind c = k') by (destruct (e_kind c), k'; simpl in S1; congruence). subst k'.
+      unfold class_of, denoted.
+      destruct c as [i k n p l]. simpl in *. destruct k; simpl in *; try exact E; discriminate E.
+    + split; [assumption|]. unfold alias_sel in S. unfold class_of, denoted.
+      destruct (alias_target c) as [t|]; [|discriminate].
+      apply andb_true_iff in S as [S S3]. apply andb_true_iff in S as [S1 S2]. now rewrite S2, S1.
+  - intros [Hc S]. apply andb_true_iff in S as [S1 S2].
+    unfold class_of, denoted in S2. destruct (alias_target c) as [t|] eqn:AT.
+    + right. split; [assumption|]. unfold alias_sel. rewrite AT, S2, S1. simpl.
+      rewrite (shown_default _ t DD). now apply (AL c t).
+    + left. exists (e_kind c). split.
+      * destruct (pub_class (e_kind c)) as [w'|] eqn:P; [|discriminate].
+        now apply (pub_class_in _ w').
+      * rewrite S2. apply filter_In. split; [assumption|]. unfold dict_sel, listed. rewrite Km. simpl.
+        now rewrite kind_eqb_refl, S1, (shown_default _ c DD), S1.
 Qed.
 
 Lemma module_exact_export idf cfg id name p kids :
-  display_default (c_display cfg) = true ->
+  display_default (c_display cfg) = true -> aliases_legal (Ent id KModule name p kids) ->
   module_exact (Ent id KModule name p kids)
                (export_ent idf cfg None None true (Ent id KModule name p kids)) = true.
 Proof.
-  intros DD. rewrite export_ent_eq. cbv zeta.
+  intros DD AL. rewrite export_ent_eq by reflexivity. cbv zeta.
   set (url := own_url None None KModule (idf id)).
   match goal with
   | |- context [node_entries KModule name url p ?dv ?lv] => set (DV := dv); set (LV := lv)
@@ -1106,12 +1289,14 @@ Proof.
     unfold spec_pub.
     apply same_set_incl; intros x Hx; apply in_map_iff in Hx as (e & <- & He); apply in_map_iff;
       exists e; (split; [reflexivity|]);
-      apply (class_members_filter cfg (Ent id KModule name p kids) c e eq_refl DD); exact He.
+      apply (class_members_filter cfg (Ent id KModule name p kids) c e eq_refl DD AL); exact He.
   - apply forallb_forall. intros l Hl.
     assert (G : jlist (jget l (JDict (node_entries KModule name url p DV LV))) = LV l).
     { unfold LIST_CLASSES in Hl. simpl in Hl. destruct Hl as [<-|[<-|[<-|[<-|[<-|[<-|[]]]]]]]; reflexivity. }
     rewrite G. unfold LV. rewrite sel_map_filter, map_map.
-    rewrite (map_ext _ (fun e => lower (e_name e))) by (intros e; now rewrite jname_export).
+    rewrite (map_ext_in _ (fun e => lower (e_name e))).
+    2: { intros e He. apply filter_In in He as [_ Se]. unfold list_sel in Se.
+         apply andb_true_iff in Se as [Se _]. now rewrite (jname_export _ _ _ _ _ e (slot_not_alias e l Hl Se)). }
     unfold spec_list. simpl e_kids.
     rewrite (filter_ext (list_sel cfg true KModule l) (fun e => accessible e && str_eqb (slot_of (e_kind e)) l)).
     + apply same_set_incl; apply incl_refl.
@@ -1121,7 +1306,7 @@ Qed.
 (* with the default display the description names exactly A's modules and, per module, exactly
    its PUBLIC / PROTECTED entities *)
 Theorem export_exact_partial A v :
-  Forall (fun m => e_kind m = KModule) (a_modules A) ->
+  Forall (fun m => e_kind m = KModule /\ aliases_legal m) (a_modules A) ->
   display_default (c_display (a_cfg A)) = true ->
   exact_on (a_modules A) (export A v) = true.
 Proof.
@@ -1131,7 +1316,7 @@ Proof.
     with (map (export_ent (ident_of A) (a_cfg A) None None true) (a_modules A)).
   rewrite all2_map. apply forallb_forall. intros m Hm.
   rewrite Forall_forall in K. specialize (K m Hm).
-  destruct m as [id k name p kids]. simpl in K. subst k. now apply module_exact_export.
+  destruct K as [K AL]. destruct m as [id k name p kids]. simpl in K. subst k. now apply module_exact_export.
 Qed.
 
 (* ================================================================= [[name]]: B's own names *)
@@ -1347,12 +1532,12 @@ Proof.
   split; [now apply use_module_roundtrip|].
   split; [reflexivity|].
   split.
-  { rewrite x_url_xlate. simpl e_kind. simpl e_id. f_equal.
+  { rewrite x_url_xlate by reflexivity. simpl e_kind. simpl e_id. f_equal.
     apply (rebase_module_url (ident_of A) b (Ent id KModule name p kids)); auto. }
   split; [now apply used_lookup_roundtrip|].
-  split; [apply x_name_xlate|].
+  split; [apply x_name_xlate; now apply (not_alias_of_class e w)|].
   split; [exact Hu|].
-  rewrite x_url_xlate. f_equal.
+  rewrite x_url_xlate by now apply (not_alias_of_class e w). f_equal.
   unfold kid_url in Hu. simpl e_kind in Hu. simpl e_id in Hu. rewrite Hu. simpl url_rel.
   apply (rebase_kid_url (ident_of A) b (Ent id KModule name p kids) e); auto.
 Qed.
@@ -1613,25 +1798,57 @@ Proof. reflexivity. Qed.
 (* ================================================================= what is exported is documented *)
 
 Lemma class_member_facts cfg m e w :
-  e_kind m = KModule -> In e (class_members cfg m w) ->
+  e_kind m = KModule -> alias_target e = None -> In e (class_members cfg m w) ->
   In e (e_kids m) /\ accessible e = true /\ shown (c_display cfg) e = true.
 Proof.
-  intros Km H. unfold class_members in H. apply in_flat_map in H as (k' & _ & H).
-  destruct (opt_eqb str_eqb (pub_class k') (Some w)); [|destruct H].
-  apply filter_In in H as [Hin S]. unfold dict_sel, listed in S. rewrite Km in S. simpl in S.
-  apply andb_true_iff in S as [S S3]. apply andb_true_iff in S as [_ S2]. auto.
+  intros Km NA H. unfold class_members in H. apply in_app_or in H as [H|H].
+  - apply in_flat_map in H as (k' & _ & H).
+    destruct (opt_eqb str_eqb (pub_class k') (Some w)); [|destruct H].
+    apply filter_In in H as [Hin S]. unfold dict_sel, listed in S. rewrite Km in S. simpl in S.
+    apply andb_true_iff in S as [S S3]. apply andb_true_iff in S as [_ S2]. auto.
+  - apply filter_In in H as [_ S]. unfold alias_sel in S. rewrite NA in S. discriminate.
+Qed.
+
+Lemma class_member_alias cfg m a t w :
+  alias_target a = Some t -> In a (class_members cfg m w) ->
+  In a (e_kids m) /\ accessible a = true /\ shown (c_display cfg) t = true /\ pub_class (e_kind t) = Some w.
+Proof.
+  intros AT H. unfold class_members in H. apply in_app_or in H as [H|H].
+  - apply in_flat_map in H as (k' & Hk & H).
+    destruct (opt_eqb str_eqb (pub_class k') (Some w)); [|destruct H].
+    apply filter_In in H as [_ S]. unfold dict_sel in S. apply andb_true_iff in S as [S _].
+    apply andb_true_iff in S as [S _]. exfalso.
+    destruct a as [i k n p l]. destruct k; simpl in AT; try discriminate.
+    simpl in S. unfold PUB_KINDS in Hk. simpl in Hk.
+    repeat (destruct Hk as [<-|Hk]; [discriminate S|]). destruct Hk.
+  - apply filter_In in H as [Hin S]. unfold alias_sel in S. rewrite AT in S.
+    apply andb_true_iff in S as [S S3]. apply andb_true_iff in S as [S1 S2].
+    repeat split; auto. simpl in S1. destruct (pub_class (e_kind t)) as [w'|]; [|discriminate].
+    apply str_eqb_eq in S1. now subst.
 Qed.
 
 (* every entity that a table of public names of the description holds ([class_members] is exactly the
-   content of that table) has its page among the pages A writes *)
+   content of that table) has its page among the pages A writes: the module's own entities ... *)
 Theorem exported_target_written A m e w u :
-  In m (a_modules A) -> e_kind m = KModule -> In e (class_members (a_cfg A) m w) ->
+  In m (a_modules A) -> e_kind m = KModule -> alias_target e = None -> In e (class_members (a_cfg A) m w) ->
   no_hash (ident_of A (e_id m)) = true -> no_hash (ident_of A (e_id e)) = true ->
   kid_url (ident_of A) m e = Some u ->
   In (page_of u) (pages_written A).
 Proof.
-  intros Hm Km He Nm Ne Hu. destruct (class_member_facts _ _ _ _ Km He) as (Hin & _ & Hs).
+  intros Hm Km NA He Nm Ne Hu. destruct (class_member_facts _ _ _ _ Km NA He) as (Hin & _ & Hs).
   now apply (target_written A m e u).
+Qed.
+
+(* ... and the entities of other modules it makes accessible again (alias a for entity t of module ms) *)
+Theorem reexported_target_written A m a t ms w u :
+  alias_target a = Some t -> In a (class_members (a_cfg A) m w) ->
+  In ms (a_modules A) -> e_kind ms = KModule -> In t (e_kids ms) ->
+  no_hash (ident_of A (e_id ms)) = true -> no_hash (ident_of A (e_id t)) = true ->
+  kid_url (ident_of A) ms t = Some u ->
+  In (page_of u) (pages_written A).
+Proof.
+  intros AT Ha Hms Kms Ht Nm Nt Hu. destruct (class_member_alias _ _ _ _ _ AT Ha) as (_ & _ & Hs & _).
+  now apply (target_written A ms t u).
 Qed.
 
 Lemma pub_table_is_class_members idf cfg id name p kids w :
@@ -1640,7 +1857,7 @@ Lemma pub_table_is_class_members idf cfg id name p kids w :
      else jkeys (jget w (export_ent idf cfg None None true (Ent id KModule name p kids)))).
 Proof.
   destruct (str_in w PUB_DICTS) eqn:E; [|reflexivity].
-  apply str_in_In in E. rewrite export_ent_eq. cbv zeta.
+  apply str_in_In in E. rewrite export_ent_eq by reflexivity. cbv zeta.
   set (url := own_url None None KModule (idf id)).
   match goal with
   | |- context [node_entries KModule name url p ?dv ?lv] => set (DV := dv); set (LV := lv)
@@ -1751,6 +1968,7 @@ Definition path_kids (idf : nat -> str) (b : base) (k : kind) (url : option str)
     end.
 
 Lemma path_ok_eq idf b pk purl id k name p kids x :
+  is_alias_node k kids = false ->
   path_ok idf b pk purl (Ent id k name p kids) x =
   (let url := own_url pk purl k (idf id) in
    match url, x_url x with
@@ -1758,7 +1976,18 @@ Lemma path_ok_eq idf b pk purl id k name p kids x :
    | Some _, _ => false
    | None, _ => true
    end && path_kids idf b k url x kids).
+Proof. destruct k, kids; simpl; intros H; try discriminate; reflexivity. Qed.
+
+Lemma path_ok_alias idf b pk purl id name p t r x :
+  path_ok idf b pk purl (Ent id KAlias name p (t :: r)) x
+  = path_ok idf b (Some KModule) (own_url None None KModule (idf id)) t x.
 Proof. reflexivity. Qed.
+
+Lemma list_slot_not_alias k c :
+  str_in (slot_of (e_kind c)) (list_slots k) = true -> alias_target c = None.
+Proof.
+  destruct c as [i kc n p l]. destruct kc; try reflexivity. destruct k; simpl; discriminate.
+Qed.
 
 Lemma path_kids_all idf b k url x kids :
   (forall c, In c kids ->
@@ -1784,7 +2013,12 @@ Proof.
   intros Hb N. induction e as [id k name p kids IH] using ent_rect'.
   intros pk purl kept T P.
   destruct (tree_names_kids _ _ _ _ _ T) as [ND TK].
-  rewrite path_ok_eq, xlate_eq. cbv zeta.
+  destruct (is_alias_node k kids) eqn:AL.
+  { destruct (is_alias_node_cases _ _ AL) as (t & r & -> & ->).
+    rewrite path_ok_alias, xlate_alias. inversion IH as [|? ? IHt _]; subst.
+    apply IHt; [apply TK; now left|].
+    simpl. eapply (own_url_shaped idf None None KModule id); eauto. exact I. }
+  rewrite path_ok_eq, xlate_eq by assumption. cbv zeta.
   set (url := own_url pk purl k (idf id)).
   assert (PU : purl_ok url).
   { unfold url. destruct (own_url pk purl k (idf id)) as [u|] eqn:E; [|exact I].
@@ -1797,13 +2031,14 @@ Proof.
     simpl url_rel. rewrite (rebase_shaped b u Hb PU). apply str_eqb_refl.
   - apply path_kids_all. intros c Hc.
     rewrite slot_child_node.
-    destruct (str_in (slot_of (e_kind c)) (list_slots k)); [|exact I].
+    destruct (str_in (slot_of (e_kind c)) (list_slots k)) eqn:SI; [|exact I].
     unfold LX. rewrite sel_map_filter, find_map.
     destruct (find _ (filter _ kids)) as [c'|] eqn:F; [|exact I].
     simpl. apply find_some in F as [Hf Hn].
     apply filter_In in Hf as [Hc' Sel].
-    rewrite x_name_xlate in Hn. apply str_eqb_eq in Hn.
     unfold list_sel in Sel. apply andb_true_iff in Sel as [Sl _]. apply str_eqb_eq in Sl.
+    rewrite x_name_xlate in Hn by (apply (list_slot_not_alias k); now rewrite Sl).
+    apply str_eqb_eq in Hn.
     assert (c' = c).
     { apply (nodup_map_inj slot_key kids); auto. unfold slot_key. now rewrite Sl, Hn. }
     subst c'. rewrite Forall_forall in IH. apply IH; auto.
@@ -1888,4 +2123,104 @@ Proof.
     + repeat constructor; intros w H; unfold PUB_DICTS in H; simpl in H;
         destruct H as [<-|[<-|[<-|[<-|[]]]]]; vm_compute; repeat constructor; simpl; intuition discriminate.
   - do 3 eexists. vm_compute. repeat split; reflexivity.
+Qed.
+
+(* ================================================================= names for entities of other modules *)
+
+(* Module m of A makes entity t of module ms accessible again under the name [local] (alias node a).
+   B says `use m, only: local`: it gets the object of t - t's own name, base / (A's own URL of t, on
+   ms's side), and the right URLs at every path below it - whatever other entities are called. *)
+Theorem roundtrip_reexport A b v locals m ms mid local pa t r w :
+  let a := Ent mid KAlias local pa (t :: r) in
+  wf_A A -> base_ok b ->
+  In m (a_modules A) -> In a (e_kids m) -> accessible a = true ->
+  shown (c_display (a_cfg A)) t = true -> pub_class (e_kind t) = Some w ->
+  lower_in (e_name m) locals = false ->
+  In ms (a_modules A) -> e_id ms = mid -> In t (e_kids ms) -> tree_names_ok t ->
+  exists tops xm x u,
+    load_json b (export A v) = Ok tops /\
+    find_used_module locals tops (e_name m) = Ok (Some (HExt xm)) /\
+    used_lookup xm w local = Ok (Some x) /\
+    x_name x = JStr (e_name t) /\
+    kid_url (ident_of A) ms t = Some u /\ x_url x = JStr (spec_join b u) /\
+    path_ok (ident_of A) b (Some KModule) (module_url (ident_of A) ms) t x = true.
+Proof.
+  intros a W Hb Hm Ha Hacc Hs Hp Hl Hms Hid Ht T.
+  pose proof (wf_kinds A W) as WK. rewrite Forall_forall in WK.
+  destruct (WK m Hm) as [Km _]. destruct (WK ms Hms) as [Kms _].
+  pose proof (wf_names A W) as WN. rewrite Forall_forall in WN. specialize (WN m Hm).
+  destruct (kid_url_some (ident_of A) ms t w Kms Hp) as (u & Hu).
+  pose proof (not_alias_of_class t w Hp) as NAt.
+  destruct m as [id k name p kids]. simpl in Km, Ha. subst k.
+  exists (xmods A b), (xlate (ident_of A) (a_cfg A) b None None true (Ent id KModule name p kids)),
+         (xlate (ident_of A) (a_cfg A) b (Some KModule) (own_url None None KModule (ident_of A mid)) true t), u.
+  split; [apply load_json_export|].
+  split; [now apply use_module_roundtrip|].
+  split; [now apply (used_lookup_alias (ident_of A) (a_cfg A) b id name p kids mid local pa t r w)|].
+  split; [now apply x_name_xlate|].
+  split; [exact Hu|].
+  assert (EU : own_url (Some KModule) (own_url None None KModule (ident_of A mid)) (e_kind t) (ident_of A (e_id t)) = Some u).
+  { unfold kid_url in Hu. rewrite Kms, Hid in Hu. exact Hu. }
+  split.
+  - rewrite x_url_xlate by assumption. rewrite EU. simpl url_rel. f_equal.
+    apply (rebase_kid_url (ident_of A) b ms t); auto using ident_of_noslash.
+  - unfold module_url. rewrite Kms, Hid.
+    apply path_ok_xlate; auto using ident_of_noslash.
+    simpl. eapply (own_url_shaped (ident_of A) None None KModule mid); auto using ident_of_noslash. exact I.
+Qed.
+
+(* non-vacuity, and the scenario itself: v1_mod and v2_mod both have a type grid_t; the facade api_mod
+   makes v2_mod's accessible as grid_t, v1_mod's as grid_legacy_t, and v2_mod's make_grid as new_grid *)
+Definition v1_grid : ent := Ent 2 KType (s "grid_t") Public [Ent 3 KVar (s "n") Public []].
+Definition v2_grid : ent := Ent 5 KType (s "grid_t") Public [Ent 6 KVar (s "n") Public []].
+Definition v2_make : ent := Ent 7 KFunction (s "make_grid") Public [].
+Definition A_facade : aproject :=
+  {| a_modules :=
+       [Ent 1 KModule (s "v1_mod") Public [v1_grid];
+        Ent 4 KModule (s "v2_mod") Public [v2_grid; v2_make];
+        Ent 8 KModule (s "api_mod") Public
+          [Ent 4 KAlias (s "new_grid") Public [v2_make];
+           Ent 4 KAlias (s "grid_t") Public [v2_grid];
+           Ent 1 KAlias (s "grid_legacy_t") Public [v1_grid]]];
+     a_cfg := cfg_default; a_pre := [] |}.
+
+Lemma wf_A_facade : wf_A A_facade.
+Proof.
+  split.
+  - repeat constructor.
+  - vm_compute. repeat constructor; simpl; intuition discriminate.
+  - repeat constructor; intros w H; unfold PUB_DICTS in H; simpl in H;
+      destruct H as [<-|[<-|[<-|[<-|[]]]]]; vm_compute; repeat constructor; simpl; intuition discriminate.
+Qed.
+
+Example reexport_ex :
+  wf_A A_facade /\ Forall (fun m => aliases_legal m) (a_modules A_facade) /\
+  (* the description keeps the local names as keys, with the entities' own names inside *)
+  jkeys (jget (s "pub_types") (nth 2 (jlist (jget (s "modules") (export A_facade []))) JNull))
+    = [s "grid_t"; s "grid_legacy_t"] /\
+  (exists tops xm xa xb xc,
+     load_json (BLocal (s "/srv/a/doc")) (export A_facade []) = Ok tops /\
+     find_used_module [] tops (s "api_mod") = Ok (Some (HExt xm)) /\
+     used_lookup xm (s "pub_types") (s "grid_t") = Ok (Some xa) /\
+     used_lookup xm (s "pub_types") (s "grid_legacy_t") = Ok (Some xb) /\
+     used_lookup xm (s "pub_procs") (s "new_grid") = Ok (Some xc) /\
+     x_name xb = JStr (s "grid_t") /\ x_name xc = JStr (s "make_grid") /\
+     x_url xa = JStr (s "/srv/a/doc/type/grid_t~2.html") /\
+     x_url xb = JStr (s "/srv/a/doc/type/grid_t.html") /\
+     x_url xc = JStr (s "/srv/a/doc/proc/make_grid.html") /\
+     used_lookup xm (s "pub_procs") (s "make_grid") = Ok None).
+Proof.
+  split; [exact wf_A_facade|]. split.
+  - repeat constructor; intros c t Hc AT; simpl in Hc;
+      repeat (destruct Hc as [<-|Hc]; [simpl in AT; try discriminate; injection AT as <-; reflexivity|]);
+      destruct Hc.
+  - split; [reflexivity|]. do 5 eexists. vm_compute. repeat split; reflexivity.
+Qed.
+
+Lemma witnesses_legal :
+  Forall (fun m => e_kind m = KModule /\ aliases_legal m) (a_modules A_private_listed) /\
+  Forall (fun m => e_kind m = KModule /\ aliases_legal m) (a_modules A_private_only).
+Proof.
+  split; repeat constructor; intros c t Hc AT; simpl in Hc;
+    repeat (destruct Hc as [<-|Hc]; [discriminate AT|]); destruct Hc.
 Qed.
